@@ -228,6 +228,8 @@ class Lib:
             old = d.sel
             return ArrData(d.shape, lambda *i: _ite_val(z3.And(*[a == b for a, b in zip(i, ii)]), v, old(*i)), _join_kind(kind, v))
         ia = as_array(idx, st)
+        if ia is not None and ia.ndim == 1 and isinstance(ia.shape[0], int) and ia.shape[0] == 0:
+            return d      # empty index list: nothing stored
         if ia is not None and ia.kind == "i" and ia.ndim == 1:
             # scatter a[idx] = scalar | a[idx] = w  (last write wins; with distinct idx: w[wit])
             mem, wit = membership(E, ia, st)
@@ -363,11 +365,14 @@ class Lib:
                     raise Unsupported("rng draw of nd shape")
             n = to_int(size)
             pos = d.pos
-            j = z3.Int("j")
-            st.assume(z3.ForAll([j], z3.And(stream(j) >= 0, stream(j) < 1)))
             st.put(ref, RngData(stream, z3.simplify(pos + n), d.aux))
             st.events.append(("draw", ref.id, pos, n))
-            return st.alloc(ArrData((n,), lambda i, pos=pos: stream(pos + i), "f"))
+
+            def sel(i, pos=pos):
+                r = stream(pos + i)
+                E.axiom(z3.And(r >= 0, r < 1))     # instance of: every uniform draw lies in [0,1)
+                return r
+            return st.alloc(ArrData((n,), sel, "f"))
         if name in ("normal", "randn", "standard_normal", "randint", "choice", "permutation", "shuffle", "multinomial", "dirichlet", "beta", "uniform"):
             adv = fresh("adv", I)
             st.assume(adv >= 1)
@@ -451,6 +456,23 @@ def membership(E, ia, st):
     cache = st.__dict__.setdefault("_memcache", {})
     if key in cache:
         return cache[key]
+    n0 = ia.shape[0]
+    if is_z3(n0) and z3.is_int_value(z3.simplify(n0)):
+        n0 = z3.simplify(n0).as_long()
+    if isinstance(n0, int) and n0 <= 4:
+        # short concrete index list: quantifier-free definition
+        elems = [to_int(ia.sel(z3.IntVal(i))) for i in range(n0)]
+
+        def mem(j, elems=elems):
+            return z3.Or(*[j == e for e in elems]) if elems else z3.BoolVal(False)
+
+        def wit(j, elems=elems):
+            r = z3.IntVal(0)
+            for i in range(len(elems) - 1, -1, -1):
+                r = z3.If(j == elems[i], z3.IntVal(i), r)
+            return r
+        cache[key] = (mem, wit)
+        return mem, wit
     mem = fresh_fn("mem", I, B)
     wit = fresh_fn("wit", I, I)
     t, j = z3.Ints("t j")
